@@ -8,6 +8,8 @@ import NngModel.Proofs.RepSteps
 import NngModel.Proofs.RepOrder
 import NngModel.Proofs.RepRecent
 import NngModel.Proofs.RawHdr
+import NngModel.Generated.Base
+import NngModel.Generated.C04REP
 namespace Nng.C04Rep
 open Nng Nng.Proto Nng.Rep Nng.RepProofs
 
